@@ -354,6 +354,7 @@ func genC20(rng *hx.Rng, tier string, w *hx.Writer) error {
 		nProg = 1500
 	}
 	genPointMachine(rng, w, Ed, GrpEd, "Ed25519", EdL, nProg, "point-arithmetic", "ed", 1)
+	encodingOwned(rng, w, Ed, "Ed25519", EdL, "point-codec")
 	// the point operations against Models/Ed.v (ge.go's formulas over Z/(2^255-19), geScalarMult's
 	// signed radix-16 digits): [k]B, [a]B + [b]B, [a]B - [b]B, -[a]B, [a]([b]B), [a]B + (-[b]B);
 	// the judge computes the logarithm of the result and asks crypto/ed25519's own base multiplication
